@@ -5,6 +5,7 @@
   operation.  Theorems about the reference model, for EVERY schema, state and operation:
 -/
 import ProphyModel.Api
+import ProphyModel.Lemmas.ApiTyped
 namespace Prophy.C10
 open Prophy Prophy.Api
 
@@ -62,5 +63,29 @@ theorem C10_append_respects_limit (all : List Member) (n : String) (t : Ty) (k :
         injection h with h
         subst h
         simpa using hl
+
+
+/-- the freshly constructed message of every accepted schema is well-typed -/
+theorem C10_default_typed (t : Ty) (hf : Accept.front t = true) (hp : Accept.pyRt t = true) :
+    hasType t (defaultTy t) = true := Api.default_typed t hf hp
+
+/-- FULL STATEMENT (state validity): every state reachable from the constructor by ANY finite
+    history of operations with arbitrary arguments is well-typed - integers in range, enum values
+    enumerators, fixed arrays of their length, limited arrays within their limit, bound arrays within
+    what their sizer counts, only the discriminated arm.  `opFits`: the message OBJECTS handed to
+    `extend` of a composite array are themselves well-typed messages of their class (they are
+    reachable states of other message objects; the model represents them by their state). -/
+theorem C10_reachable_typed (t : Ty) (ops : List Op)
+    (hf : Accept.front t = true) (hp : Accept.pyRt t = true) (hfit : ∀ op ∈ ops, opFits t op = true) :
+    hasType t (run t ops (defaultTy t) []).1 = true := Api.run_typed t ops hf hp hfit
+
+theorem C10_step_typed (t : Ty) (v : Val) (op : Op)
+    (hf : Accept.front t = true) (hp : Accept.pyRt t = true) (hfit : opFits t op = true)
+    (hv : hasType t v = true) : hasType t (step t v op).1 = true := Api.step_typed t v op hf hp hfit hv
+
+/-- without that premise the model's `extend` would store an arbitrary state: the premise is needed -/
+theorem C10_unfit_argument_breaks_typing :
+    ¬ (∀ (t : Ty) (v : Val) (op : Op), Accept.front t = true → Accept.pyRt t = true → hasType t v = true →
+        hasType t (step t v op).1 = true) := Api.step_typed_unrestricted_false
 
 end Prophy.C10
